@@ -340,7 +340,11 @@ def match_known(mod, known, case, key, detail):
         fn = getattr(mod, 'PREDICATES', {}).get(pred)
         if fn is None:
             raise HarnessError(f"known_findings.json names unknown predicate {pred!r} for {mod.ID}")
-        if fn(case, key, detail):
+        try:
+            hit = fn(case, key, detail)
+        except Exception:
+            hit = False         # a predicate that cannot read the case does not match: the failure stays a violation
+        if hit:
             return ent
     return None
 
